@@ -36,3 +36,7 @@ silent("C33", "validator-returns-list-batch",
 silent("C33", "default-qubit-decompose-in-both-arms",
        [(DQ, "        compile_pipeline.add_transform(\n            decompose,\n            stopping_condition=_stopping_condition,\n            device_wires=self.wires,\n            target_gates=target_gate_set,\n            name=self.name,\n        )\n",
              "        if self.wires is None:\n            compile_pipeline.add_transform(decompose, stopping_condition=_stopping_condition, target_gates=target_gate_set, name=self.name)\n        else:\n            compile_pipeline.add_transform(decompose, stopping_condition=_stopping_condition, device_wires=self.wires, target_gates=target_gate_set, name=self.name)\n")])
+fire("C33", "device-resolve-drops-allow_resets",
+     (PRE, "        return resolve_dynamic_wires(\n            tape, zeroed=zeroed, min_int=min_int, allow_resets=allow_resets\n        )",
+           "        return resolve_dynamic_wires(tape, zeroed=zeroed, min_int=min_int)"),
+     "R-C33-config", "device_resolve_dynamic_wires")
